@@ -321,6 +321,11 @@ class Probe:
     def remove_enter_idle(self, cbid):
         return self._remove("remove_enter_idle", cbid)
 
+    def drop(self, cbid):
+        """forget the handle of cbid (the client keeps only the token): the loop holds the last reference, if any"""
+        self.handles.pop(cbid, None)
+        self.rec(e="drop", id=cbid)
+
     def run(self):
         self.rec(e="run_begin", t=self.clock())
         try:
@@ -418,7 +423,7 @@ class VirtualOS:
 
     BASE = 1000.0  # seconds; small enough that float arithmetic on it is exact to << 1 us
 
-    def __init__(self, nfd, arrivals=(), order="reg", poll_limit=3000, fd_base=100):
+    def __init__(self, nfd, arrivals=(), order="reg", poll_limit=30000, fd_base=100):
         self.fd_base = fd_base  # descriptor number of key 0 (0 = the program watches "stdin")
         self.us = 0
         self.pending = {k: 0 for k in range(nfd)}
